@@ -260,5 +260,143 @@ def main():
                 shutil.rmtree(os.path.join(tempfile.gettempdir(), d), ignore_errors=True)
 
 
+
+# ---------------------------------------------------------------------------------------------------
+# fault injection (C13 / C08): a wrapper around the primitives, installed in this process only
+# ---------------------------------------------------------------------------------------------------
+class FaultPlan:
+    """Fail primitive `prim` on a path of category `target` (once, or until uninstalled)."""
+
+    def __init__(self, lay, prim, target, persistent):
+        self.lay, self.prim, self.target, self.persistent = lay, prim, target, persistent
+        self.fired = 0
+        self.saved = {}
+
+    def category(self, path):
+        p = os.path.abspath(str(path))
+        root = os.path.abspath(self.lay.root)
+        if not p.startswith(root):
+            return "ext"
+        rel = os.path.relpath(p, root).split(os.sep)
+        marked = rel[-1].endswith("_delete")
+        if rel[0] == "refs" and len(rel) > 1:
+            c = {"pids": "pidref", "cids": "cidref", "tmp": "tmp-refs"}.get(rel[1], "refs")
+        elif rel[0] == "objects":
+            c = "tmp-obj" if len(rel) > 1 and rel[1] == "tmp" else "obj"
+        elif rel[0] == "metadata":
+            c = "tmp-meta" if len(rel) > 1 and rel[1] == "tmp" else "meta"
+        else:
+            c = rel[0]
+        return c + ("-marked" if marked else "")
+
+    def hit(self, prim, path):
+        if prim != self.prim or self.category(path) != self.target:
+            return False
+        if self.fired and not self.persistent:
+            return False
+        self.fired += 1
+        return True
+
+    def install(self):
+        import builtins
+        import shutil as _sh
+        import hashstore.filehashstore as fhs
+        plan = self
+        real_open, real_remove, real_move = builtins.open, os.remove, _sh.move
+
+        def mode_prim(mode):
+            m = mode.replace("b", "").replace("t", "")
+            return {"r": "open-r", "w": "open-w", "a": "open-a", "r+": "open-r+"}.get(m, "open-" + m)
+
+        def f_open(file, mode="r", *a, **k):
+            if isinstance(file, (str, os.PathLike)) and plan.hit(mode_prim(mode), file):
+                raise OSError(5, "injected I/O error", str(file))
+            return real_open(file, mode, *a, **k)
+
+        def f_remove(path, *a, **k):
+            if plan.hit("remove", path):
+                raise OSError(5, "injected I/O error", str(path))
+            return real_remove(path, *a, **k)
+
+        def f_move(src, dst, *a, **k):
+            if plan.hit("move", dst):
+                raise OSError(5, "injected I/O error", str(dst))
+            return real_move(src, dst, *a, **k)
+        self.saved = {"open": real_open, "io_open": io.open, "remove": real_remove, "move": real_move}
+        builtins.open = f_open
+        io.open = f_open
+        os.remove = f_remove
+        _sh.move = f_move
+
+    def uninstall(self):
+        import builtins
+        import shutil as _sh
+        builtins.open = self.saved["open"]
+        io.open = self.saved["io_open"]
+        os.remove = self.saved["remove"]
+        _sh.move = self.saved["move"]
+
+
+def o_fault_call(p, cfg):
+    """C13: one injected failure during tag_object / store_object: the call raises unless its
+    whole effect was achieved; after a failure the pid is unbound (or bound as before) and can be
+    stored at once; other pids are untouched."""
+    store, props, root = new_store(cfg)
+    lay = layout.Layout(props)
+    alg = layout.HASHLIB[props["store_algorithm"]]
+    content = b"payload under fault"
+    cid = hashlib.new(alg, content).hexdigest()
+    pid, other = "pid-faulted", "pid-other"
+    sc = p["scenario"]
+    if "additional pid" in sc or "shared" in sc or "duplicate" in sc:
+        store.store_object(other, tmp_input(root, content, "o.bin"))
+    elif "unreferenced" in sc:
+        store.store_object(None, tmp_input(root, content, "o.bin"))
+    if sc.startswith("delete_object"):
+        store.store_object(pid, tmp_input(root, content, "p.bin"))
+    before = lay.view()
+    plan = FaultPlan(lay, p["prim"], p["target"], p.get("persistent", False))
+    data = tmp_input(root, content, "d.bin")
+    plan.install()
+    try:
+        if sc.startswith("tag_object"):
+            out = outcome(store.tag_object, pid, cid)
+        elif sc.startswith("store_object"):
+            out = outcome(store.store_object, pid, data)
+        elif sc.startswith("delete_object"):
+            out = outcome(store.delete_object, pid)
+        else:
+            return None, f"scenario {sc} has no native recipe"
+    finally:
+        plan.uninstall()
+    after = lay.view()
+    if not plan.fired:
+        return None, f"the fault site {p['prim']}@{p['target']} was not reached natively"
+    # X4: the other pid
+    if other in before["P"]:
+        if other not in after["P"] or after["P"][other] != before["P"][other] \
+                or other not in after["C"].get(cid, []) or cid not in after["O"]:
+            return True, "another pid's references or object were disturbed"
+    bound = pid in after["P"]
+    if sc.startswith("delete_object"):
+        if out[0] == "return" and bound:
+            return True, "delete_object reported success but the pid is still bound"
+        return False, f"{out[0]}; pid bound={bound}"
+    if out[0] == "return":
+        ok = bound and after["P"][pid] == cid and pid in after["C"].get(cid, [])
+        return (not ok), ("success reported with the whole effect" if ok else
+                          "success reported without the whole effect")
+    if bound and pid not in before["P"]:
+        retry = outcome(store.tag_object, pid, cid) if sc.startswith("tag_object") else \
+            outcome(store.store_object, pid, data)
+        return True, (f"{sc} failed with {out[1]} after {p['prim']}@{p['target']} "
+                      f"({'persistent' if p.get('persistent') else 'one-off'}) but the pid stays bound; "
+                      f"the immediate retry gives {retry[1] if retry[0] == 'raise' else 'success'}")
+    return False, f"failed with {out[1]}; pid left unbound"
+
+
+ORACLES["fault_call"] = o_fault_call
+
+
 if __name__ == "__main__":
     main()
